@@ -6,7 +6,7 @@ use std::num::NonZeroUsize;
 use constriction::backends::{BoundedReadWords, Cursor, ReadWords};
 use constriction::stream::queue::{EncoderSituation, RangeCoderState, RangeDecoder, RangeEncoder};
 use constriction::stream::{Code, Decode, Encode};
-use constriction::{BitArray, CoderError, Pos, Queue, Seek};
+use constriction::{BitArray, CoderError, NonZeroBitArray, Pos, Queue, Seek};
 use num_traits::AsPrimitive;
 
 use crate::rawmodel::{RawEnc, TableModel};
